@@ -822,6 +822,35 @@ func vkGrammarSequences(r *vkRun, thorough bool) {
 			return m
 		}},
 		{"header-only", func() *dns.Msg { return new(dns.Msg) }},
+		// a record that fails HALF-WAY (owner, type, class, TTL already written, the target name cannot be encoded), with loud
+		// header values: whatever the failed record left past the last whole record must be gone before the next pack
+		{"bad-name-loud(declined-midway)", func() *dns.Msg {
+			m := new(dns.Msg)
+			m.Id, m.Compress = 9, true
+			m.Question = []dns.Question{vkQ("a.example.org.", dns.TypeA)}
+			bad := vkNS("a.example.org.", strings.Repeat("x", 64)+".example.org.")
+			bad.Hdr.Class, bad.Hdr.Ttl = 0xfffe, 0xfffefdfc
+			m.Answer = []dns.RR{vkA("a.example.org.", 1), bad}
+			return m
+		}},
+		// probes whose address field is skipped by the library's encoder (4 octets the pack does not write)
+		{"probe-a-holds-v6", func() *dns.Msg {
+			m := new(dns.Msg)
+			m.Id, m.Response, m.Compress = 10, true, true
+			m.Question = []dns.Question{vkQ("a.example.org.", dns.TypeA)}
+			m.Answer = []dns.RR{vkA("a.example.org.", 1),
+				&dns.A{Hdr: dns.RR_Header{Name: "a.example.org.", Rrtype: dns.TypeA, Class: dns.ClassINET, Ttl: 300}, A: net.ParseIP("2001:db8::1")},
+				vkA("a.example.org.", 2)}
+			return m
+		}},
+		{"probe-l32-holds-v6", func() *dns.Msg {
+			m := new(dns.Msg)
+			m.Id, m.Response, m.Compress = 11, true, true
+			m.Question = []dns.Question{vkQ("a.example.org.", dns.TypeA)}
+			m.Answer = []dns.RR{&dns.L32{Hdr: dns.RR_Header{Name: "a.example.org.", Rrtype: dns.TypeL32, Class: dns.ClassINET, Ttl: 300}, Preference: 10, Locator32: net.ParseIP("2001:db8::1")},
+				vkA("a.example.org.", 2)}
+			return m
+		}},
 		{"svcb", func() *dns.Msg {
 			m := new(dns.Msg)
 			m.Id, m.Response, m.Compress = 8, true, true
